@@ -246,6 +246,16 @@ func evalC11(c c11Case, o *Obs) error {
 		msg, idx = merkleblock.NewMerkleBlockWithFilter(block, f1)
 		f2, _ := mk()
 		msg2, idx2 := bloom.NewMerkleBlock(bchutil.NewBlock(blk), f2)
+		// a proof must stay valid while further proofs are built (no storage shared between calls)
+		other := wire.NewMsgBlock(&wire.BlockHeader{Version: 2, Nonce: uint32(c.Salt) + 99})
+		for i := 0; i < c.N+1 && i < 40; i++ {
+			other.AddTransaction(minimalTx(i, c.Salt+1))
+		}
+		f3 := bloom.LoadFilter(wire.NewMsgFilterLoad(bytes.Repeat([]byte{0xff}, 8), 1, 0, wire.BloomUpdateNone)) // matches everything
+		bloom.NewMerkleBlock(bchutil.NewBlock(other), f3)
+		f4 := bloom.LoadFilter(wire.NewMsgFilterLoad(make([]byte, 8), 1, 0, wire.BloomUpdateNone)) // matches nothing
+		bloom.NewMerkleBlock(bchutil.NewBlock(other), f4)
+		merkleblock.NewMerkleBlockWithFilter(bchutil.NewBlock(other), f4)
 		if !u32Equal(idx, idx2) || !msgEqual(msg, msg2) {
 			return fmt.Errorf("n=%d subset %v: bloom.NewMerkleBlock and merkleblock.NewMerkleBlockWithFilter differ: %v / %v, hashes %d/%d flags %x/%x",
 				c.N, c.Subset, idx2, idx, len(msg2.Hashes), len(msg.Hashes), msg2.Flags, msg.Flags)
@@ -413,6 +423,73 @@ func genC11(t *rapid.T) c11Case {
 
 var kC11 = register(&Kind[c11Case]{Prop: "C11", Name: "build", Gen: genC11, Eval: evalC11})
 
+// ---- kind: buildersdag (blocks with intra-block spends, all update flags, any order) -------
+
+func evalC11Dag(c c10Case, o *Obs) error {
+	if c.Len < 1 || c.Len > 36000 || c.K > 50 || len(c.Txs) == 0 {
+		return hbug("bad case")
+	}
+	txs, err := buildTxs(c)
+	if err != nil {
+		return err
+	}
+	items := preloadItems(c, txs)
+	perm := normPerm(c.Perm, len(txs))
+	blk := wire.NewMsgBlock(&wire.BlockHeader{Version: 1, Nonce: 5})
+	leaves := make([]h32, len(perm))
+	for pos, pi := range perm {
+		blk.AddTransaction(txs[pi].msg)
+		leaves[pos] = h32(txs[pi].hash)
+	}
+	for i := range leaves { // the partial-merkle-tree rules need distinct transactions
+		for j := i + 1; j < len(leaves); j++ {
+			if leaves[i] == leaves[j] {
+				o.Class("C11:dag-duplicate-transactions(skipped)")
+				return nil
+			}
+		}
+	}
+	fa, _ := c10Filter(c, items)
+	ma, ia := merkleblock.NewMerkleBlockWithFilter(bchutil.NewBlock(blk), fa)
+	fb, _ := c10Filter(c, items)
+	mb, ib := bloom.NewMerkleBlock(bchutil.NewBlock(blk), fb)
+	o.Class("C11:dag-flags=%d", c.Flags)
+	if len(ia) > 0 && len(ia) < len(perm) {
+		o.NT()
+	}
+	if !u32Equal(ia, ib) || !msgEqual(ma, mb) {
+		return fmt.Errorf("block of %d transactions (order %v, flags %d): merkleblock.NewMerkleBlockWithFilter reveals %v, bloom.NewMerkleBlock reveals %v (messages equal: %v)",
+			len(perm), perm, c.Flags, ia, ib, msgEqual(ma, mb))
+	}
+	// both messages are the canonical tree for the revealed set and extract to it
+	chosen := make([]bool, len(perm))
+	for _, i := range ia {
+		if int(i) >= len(perm) {
+			return fmt.Errorf("matched index %d outside the block", i)
+		}
+		chosen[i] = true
+	}
+	rh, rbits := refPMTBuild(leaves, chosen)
+	if len(ma.Hashes) != len(rh) || !bytes.Equal(ma.Flags, packFlagBits(rbits)) {
+		return fmt.Errorf("block of %d transactions (order %v): proof for %v is not the canonical partial merkle tree", len(perm), perm, ia)
+	}
+	for i := range rh {
+		if h32(*ma.Hashes[i]) != rh[i] {
+			return fmt.Errorf("proof hash %d differs from the canonical partial merkle tree", i)
+		}
+	}
+	levels := refLevels(leaves)
+	pb := merkleblock.NewMerkleBlockFromMsg(*mb)
+	got := pb.ExtractMatches()
+	if got == nil || h32(*got) != levels[len(levels)-1][0] || !u32Equal(pb.GetItems(), ia) {
+		return fmt.Errorf("block of %d transactions (order %v): extraction of the built proof gives root ok=%v positions %v, want %v",
+			len(perm), perm, got != nil && h32(*got) == levels[len(levels)-1][0], pb.GetItems(), ia)
+	}
+	return nil
+}
+
+var kC11Dag = register(&Kind[c10Case]{Prop: "C11", Name: "buildersdag", Gen: genC10, Eval: evalC11Dag})
+
 func refSelfPMT(ev *Ev) {
 	// Bitcoin block 170-like sanity: two leaves -> root = H(l0||l1); odd duplication
 	l := []h32{{1}, {2}, {3}}
@@ -508,7 +585,8 @@ func TestC11(t *testing.T) {
 			}
 		}
 		kC11.Run(t, ev, perShard(pick(1500, 600000)))
+		kC11Dag.Run(t, ev, perShard(pick(1500, 300000)))
 		ev.requireClasses("C11:subset-empty", "C11:subset-full", "C11:subset-singleton", "C11:subset-proper",
-			"C11:mode=filter", "C11:mode=txnset", "C11:n-not-power-of-two")
+			"C11:mode=filter", "C11:mode=txnset", "C11:n-not-power-of-two", "C11:dag-flags=1", "C11:dag-flags=2")
 	})
 }
